@@ -358,7 +358,8 @@ def gen_pair(rnd):
         if k < 0.35:
             r1, r2 = rnd.choice(regs), rnd.choice(regs)
             n = rnd.randrange(0, 200)
-            forms = [("mov %s, %s", "MOV %s,%s"), ("add (%s)+, -(%s)", "Add (%s)+ ,-(%s)"), ("cmp %o(%%s), @#1000" % n, "CMP <%d.>(%%s) , @#0x200" % n)]
+            forms = [("mov %s, %s", "MOV %s,%s"), ("add (%s)+, -(%s)", "Add (%s)+ ,-(%s)"), ("cmp %o(%%s), @#1000" % n, "CMP <%d.>(%%s) , @#0x200" % n),
+                     ("mov start-2(%%s), @start+%o(%%s)" % n, "MOV Start-2(%%s) ,@START+0x%x(%%s)" % n)]
             fa, fb = rnd.choice(forms)
             if fa.count("%s") == 2:
                 a.append(fa % (r1[0], r2[0]))
@@ -434,6 +435,9 @@ def units(tier):
     for n in (1, 2, 3):
         us.append(("word-forms[%d]" % n, "unit_word_forms", dict(n=n)))
     us.append(("synonyms", "unit_init_closed", {}))
+    # rN versus %N inside every addressing form, also behind an index expression
+    for sh in insn.PCT_SHAPES:
+        us.append(("rm-pct[%s]" % sh, "unit_rm_pct", dict(shape=sh, reg_lazy=False)))
     us.append(("bounded-literal-case", "unit_bounded_literal_case", {}))
     us.append(("text-frame", "unit_text_frame", {}))
     return us
@@ -451,6 +455,17 @@ def canary(eng):
 
 
 def replay(o, tree):
+    if (o.get("cfg") or {}).get("kind") == "pct":
+        from contracts import c08
+        r = c08.replay(o, tree)
+        if r is not None:
+            # the rN spelling of the same operand is the reference
+            import re
+            src = r["source"]
+            ref = driver.native([{"kind": "asm", "sources": [re.sub(r"%1\b", "r1", src)]}, {"kind": "asm", "sources": [src]}], tree)
+            same = (ref[0]["status"], ref[0].get("code_hex")) == (ref[1]["status"], ref[1].get("code_hex"))
+            r.update(expected="the %N spelling assembles like the rN spelling", observed=[[x["status"], x.get("code_hex")] for x in ref], reproduced=r["reproduced"] or not same)
+        return r
     if (o.get("cfg") or {}).get("kind") == "text-frame":
         return replay_text_frame(tree)
     if o.get("kind") in ("bounded", "rac", "closed"):
